@@ -5,9 +5,12 @@
                                                       s = README text of the content (Spec), `!` = refused
                            `undef` when a float leaf does not carry well-formed digits
     norm <J>             → `ok <J>`                   the content (null members dropped, sorted)
-    read <eof> <toks…>   → `ok <hex> dv <0|1>` | `err dv …` | `nil dv …`
-                           UnmarshalJSON+MarshalJSON of the model on a raw token
-                           stream; dv = the stream is one the decoder model allows
+    read <eof> <hex text> <toks…>
+                         → `ok <hex> dv <0|1> enc <0|1>` | `err dv … enc …` | `nil dv … enc …`
+                           CanonicalJSON of the model on a text (its bytes) and the raw token
+                           stream json.Decoder yields for it; dv = the stream is one the decoder
+                           model allows, enc = checkEncoding accepts the text
+    enc <hex text>       → `ok <0|1> <0|1>`           utf8Valid, surrogatesPaired of the bytes
     atom <hex text>      → `ok <J> <hex rest>` | `none`   Spec.decodeAtom
 
   J in prefix notation:  n | t | f | i <int> | d <0|1> <digits> <exp> | s <hex> |
@@ -105,7 +108,8 @@ def optHex (o : Option Bytes) : String :=
   | none => "!"
   | some b => hexBytes b
 
-/-- the specification side: README text of the content, UTF-8 encoded; refused iff a surviving string has U+FFFD -/
+/-- the specification side: README text of the content, UTF-8 encoded; refused iff a surviving string
+    is not a sequence of Unicode scalar values (never the case for what the line protocol can carry) -/
 def specCanon (v : J) : Option Bytes :=
   let n := Spec.C07.norm v
   if Spec.C07.cleanJ n then some (utf8s (Spec.C07.text n)) else none
@@ -122,15 +126,20 @@ def handle (toks : List String) : String :=
     match parseJ r with
     | some (v, []) => s!"ok {showJ (Spec.C07.norm v)}"
     | _ => "bad-args"
-  | "read" :: e :: r =>
-    match parseToks r with
-    | some ts =>
+  | "read" :: e :: h :: r =>
+    match unhexBytes h, parseToks r with
+    | some raw, some ts =>
       let g := ts.map cook
       let dv := if decValid g then 1 else 0
-      match canonRaw ts (e == "1") with
-      | .ok cs => s!"ok {hexBytes (utf8s cs)} dv {dv}"
-      | .err => s!"err dv {dv}"
-      | .nilval => s!"nil dv {dv}"
+      let enc := if checkEncoding raw then 1 else 0
+      match canonText raw ts (e == "1") with
+      | .ok cs => s!"ok {hexBytes (utf8s cs)} dv {dv} enc {enc}"
+      | .err => s!"err dv {dv} enc {enc}"
+      | .nilval => s!"nil dv {dv} enc {enc}"
+    | _, _ => "bad-args"
+  | ["enc", h] =>
+    match unhexBytes h with
+    | some raw => s!"ok {if utf8Valid raw then 1 else 0} {if surrogatesPaired 0 raw then 1 else 0}"
     | none => "bad-args"
   | ["atom", h] =>
     match unhexBytes h with
